@@ -19,6 +19,8 @@ impl<Param, Yield> Suspender<'_, Param, Yield> {
     }
 
     /// Delay the execution of the coroutine with an arg until `timestamp`.
+    // never inlined, see `impl_current_for`: the thread-local below must be this thread's
+    #[inline(never)]
     pub fn until_with(&self, arg: Yield, timestamp: u64) -> Param {
         TIMESTAMP.with(|s| unsafe {
             s.as_ptr()
@@ -51,6 +53,7 @@ impl<Param, Yield> Suspender<'_, Param, Yield> {
     }
 
     /// Cancel the execution of the coroutine.
+    #[inline(never)]
     pub fn cancel(&self) -> ! {
         CANCEL.with(|s| unsafe {
             s.as_ptr()
